@@ -255,8 +255,14 @@ class _ReusablePoolExecutor(ProcessPoolExecutor):
                 time.sleep(1e-3)
 
             self._adjust_process_count()
-            processes = list(self._processes.values())
-            while not all(p.is_alive() for p in processes):
+            # Wait for the workers to be started. A worker that exits meanwhile
+            # (idle timeout) is removed from self._processes by the executor
+            # manager thread and a worker that dies flags the executor as
+            # broken: re-read the processes at each iteration not to wait
+            # forever for a worker that is already gone.
+            while not self._flags.broken and not all(
+                p.is_alive() for p in list(self._processes.values())
+            ):
                 time.sleep(1e-3)
 
     def _wait_job_completion(self):
